@@ -231,73 +231,9 @@ def run(ctx, chk):
                   and isinstance(s2, tuple) and s2[0] == "token" and s2[1] == b2[1] and s2[2] == ("id", "LABEL3"),
                   "convert:second-function-record", "second function record is %s (expected: its own result type, the blocks appended after the first function "
                   "was finished, starting at its own first block)" % str(f2)[:300], WC)
-    # LiftStorage: id -> token map (symbolic evaluation)
-    from ..symeval import SymEval, Hooks, NONE, Panic as SPanic
-
-    class LH(Hooks):
-        def __init__(self, vacant=True):
-            self.vacant = vacant
-            self.events = []
-
-        def path(self, p):
-            return ("self",) if p == "self" else NotImplemented
-
-        def field(self, base, name, e):
-            if base == ("self",) and name in ("values", "lookup"):
-                return (name,)
-            return NotImplemented
-
-        def index(self, base, idx, e):
-            if base == ("lookup",):
-                return ("lookup_at", idx)
-            if base == ("values",):
-                return ("value_at", idx)
-            return NotImplemented
-
-        def mcall(self, recv, m, args, e, ev):
-            if recv == ("values",) and m == "append" and len(args) == 1:
-                self.events.append(("values.append", args[0]))
-                return ("sym", "TOKEN")
-            if recv == ("lookup",) and m == "entry" and len(args) == 1:
-                return ("enum", "Entry::Vacant" if self.vacant else "Entry::Occupied", [("entry_for", args[0])])
-            if recv == ("self",) and m == "append" and len(args) == 2:
-                self.events.append(("self.append", args[0], args[1]))
-                return ("tuple", [("sym", "TOKEN"), ("entry_for", args[0])])
-            if isinstance(recv, tuple) and recv[0] == "entry_for" and m == "insert" and len(args) == 1:
-                self.events.append(("entry.insert", recv[1], args[0]))
-                return ("unit",)
-            return NotImplemented
-
-    LS = "rspirv::lift::storage"
-    la = ctx.rspirv.fn(LS, "append", "LiftStorage", False)
-    ps = [p_[0] for p_ in la["sig"]["params"] if p_[0] != "self"]
-    for vacant in (True, False):
-        h = LH(vacant)
-        try:
-            r = SymEval(h, "LiftStorage::append").run(la, {ps[0]: ("sym", "ID"), ps[1]: ("sym", "VALUE")})
-            res = ("value", r)
-        except SPanic as x:
-            res = ("panic",)
-        except Anchor as ex:
-            res = ("not analysable", str(ex))
-        want = ("value", ("tuple", [("sym", "TOKEN"), ("entry_for", ("sym", "ID"))])) if vacant else ("panic",)
-        chk.check(R2, res == want and h.events == [("values.append", ("sym", "VALUE"))], "LiftStorage::append(id %s)" % ("unused" if vacant else "already used"),
-                  "yields %s with effects %s" % (res, h.events), "rspirv/lift/storage.rs")
-    ls = ctx.rspirv.fn(LS, "append_id", "LiftStorage", False)
-    ps = [p_[0] for p_ in ls["sig"]["params"] if p_[0] != "self"]
-    h = LH()
-    try:
-        r = SymEval(h, "LiftStorage::append_id").run(ls, {ps[0]: ("sym", "ID"), ps[1]: ("sym", "VALUE")})
-        good = r == ("sym", "TOKEN") and h.events == [("self.append", ("sym", "ID"), ("sym", "VALUE")), ("entry.insert", ("sym", "ID"), ("sym", "TOKEN"))]
-        chk.check(R2, good, "LiftStorage::append_id", "returns %s with effects %s" % (r, h.events), "rspirv/lift/storage.rs")
-    except Anchor as ex:
-        chk.bad(R2, "LiftStorage::append_id", "not analysable: %s" % ex, "rspirv/lift/storage.rs")
-    lt = ctx.rspirv.fn(LS, "lookup_token", "LiftStorage", False)
-    try:
-        r = SymEval(LH(), "LiftStorage::lookup_token").run(lt, {lt["sig"]["params"][1][0]: ("sym", "ID")})
-        chk.check(R2, r == ("lookup_at", ("sym", "ID")), "LiftStorage::lookup_token", "yields %s" % (r,), "rspirv/lift/storage.rs")
-    except Anchor as ex:
-        chk.bad(R2, "LiftStorage::lookup_token", "not analysable: %s" % ex, "rspirv/lift/storage.rs")
+    # LiftStorage: the id -> token map the walk above relies on, evaluated on a real value over bounded histories (shared with C19)
+    from . import c19
+    c19.lift_histories(ctx, chk, raw)
     chk.analysed.update({"lift_arms": narms, "lifted_fields": nfields})
 
 
